@@ -1,6 +1,7 @@
 package reflect
 
 import (
+	"reflect"
 	"unsafe"
 
 	"github.com/cloudwego/frugal/internal/vrt"
@@ -30,4 +31,65 @@ func VerifBitsetLemma() {
 		}
 		vrt.Reach("unset")
 	}
+}
+
+// ---- C06(1): bump allocator, one inductive step from an arbitrary valid state ----
+//
+// Invariant I(s): s.b is a live noscan block of s.n bytes, 0 <= s.p <= s.n, and every
+// allocation handed out from this block lies in [s.b, s.b+s.p).
+// Step: for arbitrary n >= 0 and align in {1,2,4,8}, Malloc returns ret with
+//   ret aligned; [ret, ret+n) inside the block now current; ret >= old frontier if the block was kept
+//   (hence disjoint from everything handed out before); I re-established.
+func VerifSpanLemma() {
+	var s span
+	s.init()
+	blk := unsafe.Pointer(s.b)
+	vrt.Check(vrt.BlockSize(blk) >= uint64(s.n), "init: block holds n bytes")
+	p := int(vrt.U16("p"))
+	vrt.Assume(p <= s.n)
+	s.p = p
+	n := int(vrt.U32("n") & 0x3fffff)
+	align := 1 << uint(vrt.Choice("align", 4))
+	old := s
+	ret := s.Malloc(n, align)
+	a := uintptr(ret)
+	vrt.Check(a%uintptr(align) == 0, "C06 aligned for its element type")
+	base := uintptr(s.b)
+	vrt.Check(s.p >= 0 && s.p <= s.n, "C06 allocator invariant 0 <= p <= n re-established")
+	vrt.Check(a >= base && a+uintptr(n) <= base+uintptr(s.p), "C06 allocation lies below the new frontier of the current block")
+	vrt.Check(vrt.BlockSize(s.b) >= uint64(s.n), "C06 current block really holds n bytes")
+	vrt.Check(vrt.BlockNoScan(s.b), "C06 bump blocks are pointer-free allocations")
+	if s.b == old.b {
+		vrt.Check(a >= base+uintptr(old.p), "C06 allocation starts at or after the old frontier (disjoint from earlier allocations)")
+		vrt.Reach("kept")
+	} else {
+		vrt.Check(s.p <= s.n && a >= base, "C06 fresh block")
+		vrt.Reach("fresh")
+	}
+}
+
+// tDecoder.Malloc dispatch: large or pointer-bearing requests go to the typed, zeroing allocator.
+func VerifDecoderMalloc() {
+	d := decoderPool.Get().(*tDecoder)
+	n := int(vrt.U16("n"))
+	vrt.Assume(n > 0 && n <= 4096)
+	typed := vrt.Choice("typed", 2) == 1
+	var abi uintptr
+	if typed {
+		abi = rtTypePtr(reflect.TypeOf(""))
+		n = n &^ 15
+		vrt.Assume(n > 0)
+	}
+	p := d.Malloc(n, 8, abi)
+	vrt.Check(vrt.BlockSize(p)-vrt.BlockOff(p) >= uint64(n), "C06 extent lies inside its allocation")
+	if typed {
+		vrt.Check(!vrt.BlockNoScan(p), "C06 pointer-bearing memory is a typed allocation")
+		vrt.Reach("typed")
+	} else if n > defaultDecoderMemSize/8 {
+		vrt.Check(vrt.BlockOff(p) == 0, "large request gets its own allocation")
+		vrt.Reach("large")
+	} else {
+		vrt.Reach("small")
+	}
+	decoderPool.Put(d)
 }
